@@ -9,7 +9,7 @@ Import ListNotations.
 Open Scope Z_scope.
 
 (** The backoff function the theorems talk about IS the code's: [gen/Gen_C46.v] is re-translated
-    from peering/peering.go ((*peerHandler).nextBackoff, math/rand/v2.Int64N as oracle arguments,
+    from peering/peering.go (method nextBackoff of peerHandler, math/rand/v2.Int64N as oracle arguments,
     int64 arithmetic through the width-aware wrappers) on every run; for all arguments in range it
     equals the hand model [nb], never wraps around and never panics. *)
 Theorem C46_backoff_is_the_code : forall d r1 r2,
